@@ -335,6 +335,15 @@ impl VoiceSpec {
                 pdfs.push((0..n).map(|_| pdf(rng)).collect());
                 trees.push(t);
             }
+            // the trees of a model in any order in the file (each `{*}[state]` carries its state; the PDF lists follow the
+            // order of the trees): selection goes by the declared state, not by position (seeded change C04h)
+            if trees.len() > 1 && rng.chance(0.4) {
+                for i in (1..trees.len()).rev() {
+                    let j = rng.below(i + 1);
+                    trees.swap(i, j);
+                    pdfs.swap(i, j);
+                }
+            }
             // a few unused questions too
             for _ in 0..rng.below(3) {
                 let qi = rng.below(pool.len());
@@ -400,6 +409,9 @@ impl VoiceSpec {
                         _ => {}
                     }
                 }
+                // entries the engine does not know (skipped with a notice) among the known ones
+                if m.chance(0.25) { options.push("PITCH_SHIFT=2".to_string()); }
+                if m.chance(0.1) { options.push("EXPERIMENTAL".to_string()); }
                 for i in (1..options.len()).rev() {
                     let j = m.below(i + 1);
                     options.swap(i, j);
